@@ -126,3 +126,8 @@ func VerifSignWithSK(msg []uint8, sk *[CryptoSecretKeyBytes]uint8) ([]uint8, err
 
 // VerifZetas returns a copy of the twiddle-factor table.
 func VerifZetas() [N]int32 { return zetas }
+
+// VerifPackSigInto encodes into a caller-supplied buffer (whatever it held before).
+func VerifPackSigInto(dst []uint8, c []uint8, z *[L][N]int32, h *[K][N]int32) error {
+	return packSig(dst, c, verifVecL(z), verifVecK(h))
+}
